@@ -111,7 +111,7 @@ example : partitionIndices [0, 2, 3, 5, 5, 9, -1] [3, 0, 3] = [(0, 0), (0, 2), (
 `partition_list(l, lens)[t][f] = l[i]`. -/
 theorem partition_addresses_same_frame {α : Type} (l : List α) (lens : List Nat) (i : Nat)
     (hsum : lens.sum = l.length) (hi : i < l.length) :
-    ∃ t f ps row, partitionIndices [(i : Int)] lens = [(t, (f : Int))] ∧
+    ∃ (t f : Nat) (ps : List (List α)) (row : List α), partitionIndices [(i : Int)] lens = [(t, (f : Int))] ∧
       partitionList l lens = .ok ps ∧ ps[t]? = some row ∧ row[f]? = l[i]? := by
   obtain ⟨t, f, L, hl, hL, hf, hs⟩ := locate_inrange lens i 0 (by omega) (by omega)
   obtain ⟨row, hr, hrow, _⟩ := splitBy_getElem l lens t f L hL hf (by omega)
@@ -126,17 +126,22 @@ both flat arrays. -/
 theorem partition_ok_iff {α β : Type} (a : List α) (d : List β) (ci : List Int) (lens : List Nat) :
     (∃ r, partition a d ci lens = .ok r) ↔
       (lens ≠ [] ∧ lens.sum = a.length ∧ lens.sum = d.length) := by
-  cases lens with
-  | nil => simp [partition]
-  | cons l0 ls =>
-    simp only [partition, raggedArray, partitionList]
-    by_cases hsq : allEqual (l0 :: ls) = true
-    · by_cases ha : (l0 :: ls).sum = a.length <;> by_cases hd : (l0 :: ls).sum = d.length <;>
-        simp [hsq, ha, hd]
-    · have hpos := sum_pos_of_not_allEqual (l0 :: ls) (by simpa using hsq)
-      by_cases ha : (l0 :: ls).sum = a.length <;> by_cases hd : (l0 :: ls).sum = d.length <;>
-        by_cases ha0 : a.length = 0 <;> by_cases hd0 : d.length = 0 <;>
-        simp [hsq, ha, hd, ha0, hd0] <;> omega
+  constructor
+  · intro ⟨r, hr⟩
+    by_cases h : lens ≠ [] ∧ lens.sum = a.length ∧ lens.sum = d.length
+    · exact h
+    · have h' : lens = [] ∨ lens.sum ≠ a.length ∨ lens.sum ≠ d.length := by
+        by_cases h1 : lens = []
+        · exact Or.inl h1
+        · by_cases h2 : lens.sum = a.length
+          · by_cases h3 : lens.sum = d.length
+            · exact absurd ⟨h1, h2, h3⟩ h
+            · exact Or.inr (Or.inr h3)
+          · exact Or.inr (Or.inl h2)
+      obtain ⟨e, he⟩ := partition_err a d ci lens h'
+      rw [he] at hr; cases hr
+  · intro ⟨hne, ha, hd⟩
+    exact ⟨_, partition_eq a d ci lens hne ha hd⟩
 
 /-- rectangular (ndarray) output iff all lengths are equal, ragged (RaggedArray) otherwise -/
 theorem partition_square_iff {α β : Type} (a : List α) (d : List β) (ci : List Int)
@@ -144,36 +149,10 @@ theorem partition_square_iff {α β : Type} (a : List α) (d : List β) (ci : Li
     (r.assignments.isSquare = true ↔ ∀ x ∈ lens, ∀ y ∈ lens, x = y) ∧
     (r.distances.isSquare = true ↔ ∀ x ∈ lens, ∀ y ∈ lens, x = y) := by
   rw [← allEqual_iff]
-  cases lens with
-  | nil => simp [partition] at h
-  | cons l0 ls =>
-    simp only [partition, raggedArray] at h
-    by_cases hsq : allEqual (l0 :: ls) = true
-    · simp only [hsq, if_true] at h
-      split at h
-      · simp at h
-      · split at h
-        · simp at h
-        · cases h; simp [Parts.isSquare, hsq]
-    · simp only [hsq] at h
-      split at h
-      · split at h <;> simp at h
-      · split at h
-        · simp at h
-        · rename_i pa hpa _
-          split at h
-          · rename_i pd hpd _
-            cases h
-            split at hpa
-            · simp at hpa
-            · split at hpa
-              · simp at hpa
-              · split at hpd
-                · simp at hpd
-                · split at hpd
-                  · simp at hpd
-                  · cases hpa; cases hpd; simp [Parts.isSquare, hsq]
-          · simp at h
+  obtain ⟨hne, hsa, hsd⟩ := (partition_ok_iff a d ci lens).1 ⟨r, h⟩
+  rw [partition_eq a d ci lens hne hsa hsd] at h
+  cases h
+  by_cases hsq : allEqual lens = true <;> simp [hsq, Parts.isSquare]
 
 /-- concatenating the pieces restores the flat arrays, piece `t` has length `lens[t]`, the
 ragged container stores the flat data and the lengths, and the center indices are exactly
@@ -186,26 +165,18 @@ theorem partition_roundtrip {α β : Type} (a : List α) (d : List β) (ci : Lis
     (∀ da la ra, r.assignments = .ragged da la ra → da = a ∧ la = lens) ∧
     (∀ dd ld rd, r.distances = .ragged dd ld rd → dd = d ∧ ld = lens) := by
   obtain ⟨hne, hsa, hsd⟩ := (partition_ok_iff a d ci lens).1 ⟨r, h⟩
-  have hja := (partitionList_join a lens).2 hsa
-  have hjd := (partitionList_join d lens).2 hsd
-  obtain ⟨pa, hpa, hfa, hla⟩ := hja
-  obtain ⟨pd, hpd, hfd, hld⟩ := hjd
-  have hpos : ¬ allEqual lens = true → a.length ≠ 0 ∧ d.length ≠ 0 := by
-    intro hsq
-    have := sum_pos_of_not_allEqual lens (by simpa using hsq)
-    omega
-  cases lens with
-  | nil => exact absurd rfl hne
-  | cons l0 ls =>
-    simp only [partition, raggedArray, hpa, hpd] at h
-    by_cases hsq : allEqual (l0 :: ls) = true
-    · simp only [hsq, if_true] at h
-      cases h
-      simp [Parts.rows, hfa, hla, hfd, hld]
-    · obtain ⟨ha0, hd0⟩ := hpos hsq
-      simp only [hsq, ha0, hd0, if_false] at h
-      cases h
-      simp [Parts.rows, hfa, hla, hfd, hld]
+  rw [partition_eq a d ci lens hne hsa hsd] at h
+  cases h
+  have hfa : (splitBy a lens).flatten = a := by rw [splitBy_flatten, hsa, List.take_length]
+  have hfd : (splitBy d lens).flatten = d := by rw [splitBy_flatten, hsd, List.take_length]
+  have hla := splitBy_lengths a lens (by omega)
+  have hld := splitBy_lengths d lens (by omega)
+  by_cases hsq : allEqual lens = true
+  · simp [hsq, Parts.rows, hfa, hfd, hla, hld]
+  · simp only [hsq]
+    refine ⟨hfa, hla, hfd, hld, rfl, ?_, ?_⟩
+    · intro da la ra e; cases e; exact ⟨rfl, rfl⟩
+    · intro dd ld rd e; cases e; exact ⟨rfl, rfl⟩
 
 -- non-vacuity: unequal lengths incl. a length-1 trajectory, centers on first/last frames
 example : partition [0, 1, 1, 0, 2, 2] [(1 : Rat), 0, 0, 3, 0, 2] [1, 0, 4] [1, 3, 2]
